@@ -25,8 +25,10 @@ EXPLANATION = (
     "streams with the same size expression and consume them with one zip; the reported size must be "
     "the cardinality of the same product; the accumulation loops take every (points, weight) pair.  "
     "Any asymmetry pairs weights with the wrong points, so "
-    "each rule is a necessary condition of every clause of the statement.  NOT decided: numerical "
-    "equality of the three evaluation routes.")
+    "each rule is a necessary condition of every clause of the statement.  (R5) integrate evaluated over symbolic "
+    "one-dimensional sub-grids with an uninterpreted integrand returns the full tensor-product quadrature on the "
+    "vectorised route and on the point-by-point route for several chunk sizes (bounded sweep in the sizes).  NOT decided: "
+    "floating-point equality of the routes.")
 RULE = "one instance per paired enumeration (properties, integrate), per chunk stream, per size branch"
 
 
